@@ -715,7 +715,7 @@ set_option maxRecDepth 10000 in
 /-- **`leftShift(a, k)`** never indexes out of range (the cheat table predicts the width exactly), returns a decimal
     in normal form, and when the `trunc` flag is off afterwards it was off before and the value is exactly `a · 2^k` -/
 theorem leftShift_spec (a : Decimal) (h : WF a) (hnz : NZ a) (hnd : 1 ≤ a.nd) (k : Nat) (hk1 : 1 ≤ k) (hk : k ≤ 60) :
-    ∃ b, leftShift a k = some b ∧ WF b ∧ NZ b ∧ 1 ≤ b.nd ∧ b.neg = a.neg ∧
+    ∃ b, leftShift a k = some b ∧ WF b ∧ NZ b ∧ Trimmed b ∧ 1 ≤ b.nd ∧ b.neg = a.neg ∧
       (b.trunc = false → a.trunc = false ∧ aval b = aval a * 2 ^ k) := by
   obtain ⟨D2, s, hc, hcd, hcv, hcl, hD1, hD2a, hD2b, hL1⟩ := cheat_facts k hk1 hk
   have hlead : 1 ≤ dig a.d 0 := hnz hnd
@@ -819,7 +819,7 @@ theorem leftShift_spec (a : Decimal) (h : WF a) (hnz : NZ a) (hnd : 1 ≤ a.nd) 
       exact this
     · exact lsExtra_lead 64 delta n1 d1 tr1 d2 tr2 (by omega) (by omega) hsz1 (by omega) hn1hi (hn1lo (by omega)) he
   obtain ⟨t1, t2, t3, t4⟩ := trim_spec _ hwf
-  refine ⟨_, rfl, t1, trim_nz _ hnz2, trim_pos _ hnz2 (by show 1 ≤ min (a.nd + delta) 800; omega), t3, fun htr => ?_⟩
+  refine ⟨_, rfl, t1, trim_nz _ hnz2, trim_trimmed _, trim_pos _ hnz2 (by show 1 ≤ min (a.nd + delta) 800; omega), t3, fun htr => ?_⟩
   rw [t4] at htr
   obtain ⟨e1, e2⟩ := hval2 htr
   obtain ⟨f1, f2⟩ := hval1 e1
